@@ -3,6 +3,7 @@ package main
 // Calls: contracts, inlining, builtins, standard-library models, opaque havoc.
 
 import (
+	"sort"
 	"fmt"
 	"go/constant"
 	"go/token"
@@ -202,6 +203,9 @@ func (fr *Frame) callStatic(fn *ssa.Function, args []Val, bindings []Val, pos to
 	}
 	if v, ok := fr.stdModel(name, fn, args, pos, resType); ok {
 		return v
+	}
+	if ct := c.eng.recSpecOf(fn); ct != nil {
+		return fr.recSpecCall(fn, ct, args, pos, resType)
 	}
 	// contract? (in spec mode a loop-free body is its own strongest postcondition: inline it)
 	if ct := c.eng.contractOf(fn); ct != nil && ct.Flags["inline"] == "" && !(c.forceInline && ct.Flags["assumed"] == "" && len(fn.Blocks) > 0) {
@@ -991,3 +995,102 @@ func (fr *Frame) copyOp(cc *ssa.CallCommon, args []Val, pos token.Pos) Val {
 }
 
 var _ = constant.MakeInt64
+
+// ---------------------------------------------------------------- recursive spec functions
+
+// recSpecOf returns the contract of fn when fn is a recursive spec function (a spec func with a decreases clause).
+func (e *Engine) recSpecOf(fn *ssa.Function) *Contract {
+	if e.recSpecs == nil {
+		e.recSpecs = map[*ssa.Function]*Contract{}
+		for _, cts := range e.cs.ByPkg {
+			for _, ct := range cts {
+				if ct.Kind == "spec" && ct.Flags["decreases"] != "" && ct.Disabled == "" {
+					if g := e.genFunc(ct, ""); g != nil {
+						e.recSpecs[g] = ct
+					}
+				}
+			}
+		}
+	}
+	return e.recSpecs[fn]
+}
+
+// recSpecCall applies a recursive spec function: the value is an uninterpreted function of the arguments and of the
+// heap components the definition reads; outside quantifiers the definition is unfolded once (nested applications stay
+// uninterpreted), which is what an inductive step needs. Well-foundedness of the definition is a separate obligation
+// (unit <name>#specdef).
+func (fr *Frame) recSpecCall(fn *ssa.Function, ct *Contract, args []Val, pos token.Pos, resType types.Type) Val {
+	c := fr.ctx
+	var ts []*Term
+	for _, a := range args {
+		t := a.term()
+		if t == nil {
+			unsupported("recursive spec function %s applied to a non-term argument", ct.Name)
+		}
+		ts = append(ts, t)
+	}
+	if c.recMeasure != nil && c.recTarget == fn && !fr.inQuant {
+		// checking the definition itself: every nested application has a smaller, non-negative measure
+		m := c.recMeasure(fr, args)
+		c.oblige(fr, "specdef", "decreases", And(BVCmp("bvsle", BVLit(0, 64), m), BVCmp("bvslt", m, c.recMeasure0)), pos)
+	}
+	foot, ok := c.eng.recFoot[fn]
+	if !ok {
+		// discover the heap footprint by one trial evaluation on a scratch state
+		if c.recTrial == nil {
+			c.recTrial = map[*ssa.Function]bool{}
+		}
+		if c.recTrial[fn] {
+			return Val{T: FreshVar("rectrial", sortOf(resType))}
+		}
+		c.recTrial[fn] = true
+		savedTrack := readTrack
+		readTrack = map[string]*Sort{}
+		nA, nO := len(c.assumes), len(c.obligs)
+		func() {
+			defer func() { readTrack2 := readTrack; readTrack = savedTrack; c.recTrial[fn] = false
+				var keys []string
+				for k := range readTrack2 {
+					if strings.HasPrefix(k, "cell:") || strings.HasPrefix(k, "ghost:") {
+						continue
+					}
+					keys = append(keys, k)
+				}
+				sort.Strings(keys)
+				for _, k := range keys {
+					foot = append(foot, footKey{k, readTrack2[k]})
+					if savedTrack != nil {
+						savedTrack[k] = readTrack2[k]
+					}
+				}
+			}()
+			c.runFunc(fn, args, nil, fr.cur.clone(), fr.abs(), fr, frameOpts{spec: true})
+		}()
+		c.assumes = c.assumes[:nA]
+		c.obligs = c.obligs[:nO]
+		c.eng.recFoot[fn] = foot
+	}
+	all := append([]*Term{}, ts...)
+	for _, fk := range foot {
+		all = append(all, fr.cur.get(fk.key, fk.sort))
+	}
+	app := UFApp("rec."+sanitize(fullName(fn)), sortOf(resType), all...)
+	if c.inUse == nil {
+		c.inUse = map[*ssa.Function]int{}
+	}
+	if fr.inQuant || c.inUse[fn] > 0 {
+		return Val{T: app}
+	}
+	c.inUse[fn]++
+	res, _, _ := c.runFunc(fn, args, nil, fr.cur.clone(), fr.abs(), fr, frameOpts{spec: true})
+	c.inUse[fn]--
+	if len(res) == 1 && res[0].term() != nil {
+		c.assume(Implies(fr.abs(), Eq(app, res[0].term())))
+	}
+	return Val{T: app}
+}
+
+type footKey struct {
+	key  string
+	sort *Sort
+}
